@@ -39,6 +39,7 @@ type Cmd struct {
 
 type Hold struct {
 	Id     byte
+	Reqs   []byte // further requests that may have set the terms (updates the server was free to ignore)
 	Req    byte // request that last set the terms
 	Depth  int
 	Count  uint16
@@ -70,6 +71,7 @@ type Reply struct {
 	Result  uint8
 	LCount  int
 	LRCount int
+	Applied bool // a value operation carried by this request takes effect with this reply
 }
 
 func (r Reply) String() string {
@@ -154,15 +156,22 @@ func (m *RefLockDB) Lock(client string, c Cmd) []Reply {
 	waited := false
 	if d > 0 {
 		if h := k.hold(c.Id); h != nil {
+			if c.Flag&FlagUpdate != 0 {
+				// update of an existing hold: answered LOCKED_ERROR either way; the terms change unless the
+				// server considers them equal (allowed to ignore a move of at most one unit)
+				h.Reqs = append(h.Reqs, c.Req)
+				return []Reply{{client, c.Req, LOCKED_ERROR, d, h.Depth, true}}
+			}
 			if h.Depth < 0xff && h.Depth <= int(c.Rcount) && c.TimeoutFlag&TFlagPriority == 0 {
 				if c.Expried == 0 {
-					return []Reply{{client, c.Req, SUCCED, d, h.Depth}}
+					return []Reply{{client, c.Req, SUCCED, d, h.Depth, false}}
 				}
 				h.Depth++
 				h.Count, h.Rcount, h.Req, h.Client, h.TFlag = c.Count, c.Rcount, c.Req, client, c.TimeoutFlag
-				return []Reply{{client, c.Req, SUCCED, d + 1, h.Depth}}
+				h.Reqs = nil
+				return []Reply{{client, c.Req, SUCCED, d + 1, h.Depth, true}}
 			}
-			return []Reply{{client, c.Req, LOCKED_ERROR, d, h.Depth}}
+			return []Reply{{client, c.Req, LOCKED_ERROR, d, h.Depth, false}}
 		}
 		waited = len(k.Waits) > 0
 	}
@@ -174,16 +183,16 @@ func (m *RefLockDB) Lock(client string, c Cmd) []Reply {
 	if canTry && k.Admissible(c.Count) {
 		if c.Expried > 0 {
 			k.Holds = append(k.Holds, Hold{Id: c.Id, Req: c.Req, Depth: 1, Count: c.Count, Rcount: c.Rcount, TFlag: c.TimeoutFlag, Client: client})
-			return []Reply{{client, c.Req, SUCCED, d + 1, 1}}
+			return []Reply{{client, c.Req, SUCCED, d + 1, 1, true}}
 		}
-		return []Reply{{client, c.Req, SUCCED, d, 0}}
+		return []Reply{{client, c.Req, SUCCED, d, 0, true}}
 	}
 	if c.Timeout > 0 {
 		m.seq++
 		k.Waits = append(k.Waits, Wait{Id: c.Id, Req: c.Req, Count: c.Count, Rcount: c.Rcount, Prio: prio(c), Expried: c.Expried, TFlag: c.TimeoutFlag, Client: client, Seq: m.seq})
 		return nil
 	}
-	return []Reply{{client, c.Req, TIMEOUT, d, 0}}
+	return []Reply{{client, c.Req, TIMEOUT, d, 0, false}}
 }
 
 // wake grants queued requests in service order until the next one is not admissible.
@@ -202,9 +211,9 @@ func (m *RefLockDB) wake(k *Key) []Reply {
 		}
 		if w.Expried > 0 {
 			k.Holds = append(k.Holds, Hold{Id: w.Id, Req: w.Req, Depth: 1, Count: w.Count, Rcount: w.Rcount, TFlag: w.TFlag, Client: w.Client})
-			out = append(out, Reply{w.Client, w.Req, SUCCED, k.DepthSum(), 1})
+			out = append(out, Reply{w.Client, w.Req, SUCCED, k.DepthSum(), 1, true})
 		} else {
-			out = append(out, Reply{w.Client, w.Req, SUCCED, k.DepthSum(), 0})
+			out = append(out, Reply{w.Client, w.Req, SUCCED, k.DepthSum(), 0, true})
 		}
 	}
 	return out
@@ -218,7 +227,7 @@ func (m *RefLockDB) Unlock(client string, c Cmd) []Reply {
 		if c.Flag&UFlagCancel != 0 {
 			return m.cancel(k, client, c)
 		}
-		return []Reply{{client, c.Req, UNLOCK_ERROR, 0, 0}}
+		return []Reply{{client, c.Req, UNLOCK_ERROR, 0, 0, false}}
 	}
 	h := k.hold(c.Id)
 	if h == nil {
@@ -231,17 +240,17 @@ func (m *RefLockDB) Unlock(client string, c Cmd) []Reply {
 		} else if c.Flag&UFlagCancel != 0 {
 			return m.cancel(k, client, c)
 		} else {
-			return []Reply{{client, c.Req, UNOWN_ERROR, d, 0}}
+			return []Reply{{client, c.Req, UNOWN_ERROR, d, 0, false}}
 		}
 	}
 	var out []Reply
 	if h.Depth > 1 && c.Rcount > 0 && c.TimeoutFlag&TFlagPriority == 0 {
 		h.Depth--
-		out = append(out, Reply{client, c.Req, SUCCED, d - 1, h.Depth})
+		out = append(out, Reply{client, c.Req, SUCCED, d - 1, h.Depth, true})
 	} else {
 		dd := h.Depth
 		k.removeHold(h.Id)
-		out = append(out, Reply{client, c.Req, SUCCED, d - dd, 0})
+		out = append(out, Reply{client, c.Req, SUCCED, d - dd, 0, true})
 	}
 	return append(out, m.wake(k)...)
 }
@@ -255,7 +264,7 @@ func (m *RefLockDB) cancel(k *Key, client string, c Cmd) []Reply {
 		}
 	}
 	if idx < 0 {
-		return []Reply{{client, c.Req, UNLOCK_ERROR, d, 0}}
+		return []Reply{{client, c.Req, UNLOCK_ERROR, d, 0, false}}
 	}
 	// queue order is service order
 	ord := k.Order()
@@ -271,7 +280,7 @@ func (m *RefLockDB) cancel(k *Key, client string, c Cmd) []Reply {
 			break
 		}
 	}
-	out := []Reply{{client, c.Req, LOCKED_ERROR, d, 0}, {w.Client, w.Req, UNLOCK_ERROR, d, 0}}
+	out := []Reply{{client, c.Req, LOCKED_ERROR, d, 0, false}, {w.Client, w.Req, UNLOCK_ERROR, d, 0, false}}
 	if d > 0 {
 		out = append(out, m.wake(k)...) // the request behind the cancelled one may now be admissible
 	}
@@ -285,7 +294,13 @@ func (m *RefLockDB) Expire(key byte, id byte, req byte) ([]Reply, error) {
 	if h == nil {
 		return nil, fmt.Errorf("EXPRIED for LockId %d on key %d which holds nothing", id, key)
 	}
-	if h.Req != req {
+	okReq := h.Req == req
+	for _, r := range h.Reqs {
+		if r == req {
+			okReq = true
+		}
+	}
+	if !okReq {
 		return nil, fmt.Errorf("EXPRIED for LockId %d on key %d under RequestId %d, but its terms were last set by request %d", id, key, req, h.Req)
 	}
 	k.removeHold(id)
